@@ -87,7 +87,9 @@ class Model:
             t.data = {i: self.zero for i in t.indices(self)}
             return t
         if isinstance(o, C.FormSum):
-            parts = [(self.assemble(c), self.weight(w)) for c, w in zip(o.components(), o.weights())]
+            # an empty Form is UFL's argument-less zero: it contributes nothing, whatever its (undetermined) arguments
+            parts = [(self.assemble(c), self.weight(w)) for c, w in zip(o.components(), o.weights())
+                     if not (isinstance(c, C.Form) and c.empty())]
             if not parts:
                 raise ModelError("empty FormSum")
             acc = None
